@@ -710,6 +710,8 @@ int close(int fd) {
     for (i = 0; i < nthr; i++) if (&thr[i] != self && thr[i].lib && thr[i].state == T_SELECT)
       for (j = 0; j < thr[i].npfd; j++) if (thr[i].pfd[j].fd == fd) {
         char tb[32]; tname(i, tb); dump_trace(); printf("res misuse close-of-descriptor-in-use fd=%d waiting=%s\n", fd, tb); j = thr[i].npfd; }
+    /* the number is free from now on: it no longer names this client's socket */
+    for (i = 0; i < nclients; i++) if (clients[i].live && clients[i].sock == fd) clients[i].sock = -1;
   }
   return r_close(fd);
 }
